@@ -21,6 +21,11 @@ SCRIPTS = {
     "echo": {"c": [W(0, 3000, True)], "s": [W(0, 3000, True, g=("rxfin", 0))]},
     "early_data_like": {"c": [W(0, 12000, True, g="now")], "s": [W(1, 100, True)]},
     "server_close_early": {"c": [W(0, 10)], "s": [{"op": "close", "code": 0, "reason": "bye", "g": "now"}]},
+    # resumption with early data: the first client datagram coalesces Initial + 0-RTT
+    "zr_early_request": {"c": [W(0, 300, True, g="now")], "s": [W(0, 9000, True, g=("rx", 0, 1))]},
+    "zr_bulk_4600": {"c": [W(0, 4600, True, g="now")]},
+    "zr_bulk_5200": {"c": [W(0, 5200, True, g="now")]},
+    "zr_bulk_8000": {"c": [W(0, 8000, True, g="now")]},
     "migrate_then_bulk": {"c": [W(0, 2000), {"op": "ping", "uid": 2}, W(0, 6000, True)],
                           "s": [W(1, 9000, True)]},
 }
@@ -33,6 +38,9 @@ def goal(w):
 
 def factory(sc):
     cfg = dict(sc["cfg"])
+    if sc.get("resume"):
+        base = {k: v for k, v in cfg.items() if k in ("version", "chain", "c_mds", "s_mds")}
+        cfg["tickets"] = netsim.obtain_tickets(base)
     kw = {"max_steps": 300, "horizon": 60.0,
           "deviations": tuple(sc.get("dev", ("drop", "dup", "delay", "rebind", "late", "spoof")))}
     return cfg, SCRIPTS[sc["script"]], [SizeMonitor()], kw, goal
@@ -61,6 +69,11 @@ def scenarios(tier, seed):
     out["early|big"] = {"script": "early_data_like", "cfg": {"chain": "bigchain"}}
     out["srvclose|big"] = {"script": "server_close_early", "cfg": {"chain": "bigchain"}}
     out["migrate|ed"] = {"script": "migrate_then_bulk", "cfg": {"chain": "ed25519"}}
+    out["zr|early_request"] = {"script": "zr_early_request", "cfg": {}, "resume": True}
+    out["zr|early_request_lost2"] = {"script": "zr_early_request", "cfg": {"c_drop_first": 0}, "resume": True}
+    for n in (4600, 5200, 8000):
+        out["zr|bulk%d" % n] = {"script": "zr_bulk_%d" % n, "cfg": {}, "resume": True}
+        out["zr|bulk%d_flightlost" % n] = {"script": "zr_bulk_%d" % n, "cfg": {"c_drop_first": 8}, "resume": True}
     out["hs|quantum"] = {"script": "hs_only", "cfg": {"quantum": True, "chain": "chain2"}}
     out["hs|v2"] = {"script": "hs_only", "cfg": {"version": V2, "chain": "bigchain"}}
     out["hs|retry"] = {"script": "hs_only", "cfg": {"retry": True, "chain": "bigchain"}}
